@@ -34,3 +34,8 @@ for sid, prop, change, best in rows:
         else:
             verdict = 'missed (%s: %s)' % (tier, summ.split(' wall')[0])
     print('| %s | %s | %s |' % (sid, change.replace('|', '/')[:150], verdict))
+    if '--update-meta' in sys.argv and best is not None:
+        mp = '/verif/seeded/%s/meta.json' % sid
+        m = json.load(open(mp))
+        m['detected_by'] = verdict.replace('**', '') + ' (./check run against the change in a scratch copy by tools/sweep.sh; see DESIGN.md section 11)'
+        json.dump(m, open(mp, 'w'), indent=1)
